@@ -228,6 +228,10 @@ def mutate (sl : Slot) (verb : String) (args : List String) : Option (Slot × St
     let i ← nat? i; let j ← nat? j
     let (g', r) := if und then g.uRemoveEdge i j else g.dRemoveEdge i j
     pure (.gr und g', showUnit r)
+  | .gr false g, "removeFrontEdge", [i] => do
+    let i ← nat? i
+    let (g', r) := g.dRemoveFrontEdge i
+    pure (.gr false g', showRes (fun b => if b then "ok" else "none") r)
   | .gr und g, "removeFrontEdge", [i] => do
     let i ← nat? i
     match g.getOutNeighbours i with
